@@ -176,7 +176,7 @@ impl BinWrite for ConInfo {
             });
         }
 
-        let gearsp = self.gearsp & !0b11110000;
+        let gearsp = self.gearsp << 4; // gear lives in the top 4 bits
         gearsp.write_options(writer, endian, ())?;
 
         self.speed.write_options(writer, endian, ())?;
